@@ -74,6 +74,7 @@ type mapVal struct {
 	keys   []value // strVal / intVal / boolVal, insertion order
 	vals   []value
 	frozen bool
+	dirty  int // >0: written inside an unordered context that is still running
 	birth  int
 }
 
@@ -373,28 +374,26 @@ func importOf(f *ast.File, name string) string {
 // ---------------------------------------------------------------------------------------------
 // scopes
 
-type variable struct{ v value }
+type variable struct {
+	v     value
+	dirty int // >0: assigned inside an unordered context that is still running (reading it there depends on iteration order)
+}
 
 type scope struct {
 	vars   map[string]*variable
 	parent *scope
 	file   *ast.File // set on the root scope of a file
-	unord  bool      // boundary of an unordered context (one iteration of a loop over a map)
 	fn     bool      // boundary of a function frame
 	birth  int
 }
 
-func (s *scope) lookup(name string) (*variable, bool /*crossed unordered boundary*/, *scope) {
-	crossed := false
+func (s *scope) lookup(name string) (*variable, *scope) {
 	for c := s; c != nil; c = c.parent {
 		if v, ok := c.vars[name]; ok {
-			return v, crossed, c
-		}
-		if c.unord {
-			crossed = true
+			return v, c
 		}
 	}
-	return nil, false, nil
+	return nil, nil
 }
 
 func (s *scope) fileOf() *ast.File {
@@ -421,20 +420,65 @@ type attempt struct {
 }
 
 type evaluator struct {
-	pkg      *pkgInfo
-	trace    []*callVal
-	inlined  []*ast.CallExpr // call sites that were inlined (rolled back with the trace)
-	clock    int
-	depth    int
-	steps    int
-	unord    int // depth of unordered contexts
-	nextGrp  int
-	curGrp   []int
-	attempts []*attempt
+	pkg     *pkgInfo
+	trace   []*callVal
+	inlined []*ast.CallExpr // call sites that were inlined (rolled back with the trace)
+	clock   int
+	depth   int
+	steps   int
+	unord   int // depth of unordered contexts
+	ctxs    []*unordCtx
+	selfApp *ast.CallExpr // the append(x, ...) of a statement `x = append(x, ...)` being executed
+	lhsMap  bool          // the map of an assignment `m[k] = v` is being evaluated
+	// opaqueOrderFree is set by a generator that reads ONLY concrete arguments of trace entries and never the
+	// identity or structure of opaque values (Gen_Templates: the texts given to Parse). It then allows
+	// `t = template.Must(t.Parse(text))` inside an iteration over a map: t stays opaque whatever the order.
+	opaqueOrderFree bool
+	nextGrp         int
+	curGrp          []int
+	attempts        []*attempt
 }
 
 func newEvaluator(p *pkgInfo) *evaluator {
 	return &evaluator{pkg: p}
+}
+
+// unordCtx: one loop whose iteration order is unspecified (over a map, or over the part of a slice that was
+// built in such a loop). Whatever existed before the loop and is written inside it (x = append(x, ...), m[k] = v,
+// n++) is "dirty" until the loop ends: reading it inside the loop would observe the iteration order.
+type unordCtx struct {
+	start int
+	vars  []*variable
+	maps  []*mapVal
+}
+
+func (ev *evaluator) enterUnord(grp int) {
+	ev.unord++
+	ev.curGrp = append(ev.curGrp, grp)
+	ev.ctxs = append(ev.ctxs, &unordCtx{start: ev.clock})
+}
+
+func (ev *evaluator) leaveUnord() {
+	c := ev.ctxs[len(ev.ctxs)-1]
+	for _, v := range c.vars {
+		v.dirty--
+	}
+	for _, m := range c.maps {
+		m.dirty--
+	}
+	ev.ctxs = ev.ctxs[:len(ev.ctxs)-1]
+	ev.curGrp = ev.curGrp[:len(ev.curGrp)-1]
+	ev.unord--
+}
+
+// crossing: the outermost running unordered context that began after something born at `birth` (nil: none).
+func (ev *evaluator) crossing(birth int) *unordCtx {
+	for _, c := range ev.ctxs {
+		if birth <= c.start {
+			return c
+		}
+	}
+	return nil
 }
 
 func (ev *evaluator) errf(n ast.Node, format string, a ...interface{}) error {
@@ -610,11 +654,11 @@ func (ev *evaluator) pkgValue(name string, at ast.Node) (value, error) {
 	defer delete(p.busy, name)
 	// a package-level initialiser runs outside every unordered context and inlining attempt of the user
 	// and what it calls is not part of the trace of the function being evaluated
-	saveUn, saveGrp, saveAtt, saveDepth := ev.unord, ev.curGrp, ev.attempts, ev.depth
+	saveUn, saveGrp, saveAtt, saveDepth, saveCtxs := ev.unord, ev.curGrp, ev.attempts, ev.depth, ev.ctxs
 	mark, imark := len(ev.trace), len(ev.inlined)
-	ev.unord, ev.curGrp, ev.attempts, ev.depth = 0, nil, nil, 0
+	ev.unord, ev.curGrp, ev.attempts, ev.depth, ev.ctxs = 0, nil, nil, 0, nil
 	v, err := ev.evalExpr(d.spec.Values[d.idx], ev.fileScope(d.file))
-	ev.unord, ev.curGrp, ev.attempts, ev.depth = saveUn, saveGrp, saveAtt, saveDepth
+	ev.unord, ev.curGrp, ev.attempts, ev.depth, ev.ctxs = saveUn, saveGrp, saveAtt, saveDepth, saveCtxs
 	ev.trace, ev.inlined = ev.trace[:mark], ev.inlined[:imark]
 	if err != nil {
 		return nil, err
@@ -814,7 +858,13 @@ func (ev *evaluator) evalIdent(x *ast.Ident, sc *scope) (value, error) {
 	if x.Name == "_" {
 		return nil, ev.errf(x, "blank identifier used as a value")
 	}
-	if v, _, _ := sc.lookup(x.Name); v != nil {
+	if v, _ := sc.lookup(x.Name); v != nil {
+		if v.dirty > 0 {
+			return nil, ev.errf(x, "%s is read inside the iteration over a map that modifies it: its value there depends on iteration order", x.Name)
+		}
+		if m, ok := v.v.(*mapVal); ok && m.dirty > 0 && !ev.lhsMap {
+			return nil, ev.errf(x, "map %s is read inside the iteration over a map that writes to it: its content there depends on iteration order", x.Name)
+		}
 		return v.v, nil
 	}
 	p := ev.pkg
@@ -854,6 +904,15 @@ func (ev *evaluator) evalIdent(x *ast.Ident, sc *scope) (value, error) {
 	return nil, ev.errf(x, "identifier %s is not resolvable (not a local, not declared in %s, not an import of this file)", x.Name, p.rel)
 }
 
+// isOpaque: nothing a generator can mistake for data (a parameter, an import, a selector or call on such).
+func isOpaque(v value) bool {
+	switch v.(type) {
+	case *symVal, *pkgVal, *selVal, *callVal:
+		return true
+	}
+	return false
+}
+
 func concrete(v value) bool {
 	switch v.(type) {
 	case strVal, intVal, boolVal:
@@ -890,8 +949,13 @@ func (ev *evaluator) evalBinary(x *ast.BinaryExpr, sc *scope) (value, error) {
 	if err != nil {
 		return nil, err
 	}
+	return ev.binop(x, x.Op, l, r)
+}
+
+// binop applies a binary operator (other than && and ||) to two evaluated operands.
+func (ev *evaluator) binop(at ast.Node, op token.Token, l, r value) (value, error) {
 	fail := func() (value, error) {
-		return nil, ev.errf(x, "%s %s %s is not resolvable", describe(l), x.Op, describe(r))
+		return nil, ev.errf(at, "%s %s %s is not resolvable", describe(l), op, describe(r))
 	}
 	isNilLike := func(v value) (isNil, known bool) {
 		switch t := v.(type) {
@@ -903,7 +967,7 @@ func (ev *evaluator) evalBinary(x *ast.BinaryExpr, sc *scope) (value, error) {
 		}
 		return false, false
 	}
-	switch x.Op {
+	switch op {
 	case token.EQL, token.NEQ:
 		var eq bool
 		switch {
@@ -925,7 +989,7 @@ func (ev *evaluator) evalBinary(x *ast.BinaryExpr, sc *scope) (value, error) {
 			}
 			eq = ln == rn
 		}
-		if x.Op == token.NEQ {
+		if op == token.NEQ {
 			eq = !eq
 		}
 		return boolVal(eq), nil
@@ -936,7 +1000,7 @@ func (ev *evaluator) evalBinary(x *ast.BinaryExpr, sc *scope) (value, error) {
 		if !ok {
 			return fail()
 		}
-		switch x.Op {
+		switch op {
 		case token.ADD:
 			return lv + rv, nil
 		case token.LSS:
@@ -953,7 +1017,7 @@ func (ev *evaluator) evalBinary(x *ast.BinaryExpr, sc *scope) (value, error) {
 		if !ok {
 			return fail()
 		}
-		switch x.Op {
+		switch op {
 		case token.ADD:
 			return lv + rv, nil
 		case token.SUB:
@@ -1042,6 +1106,9 @@ func (ev *evaluator) evalIndex(x *ast.IndexExpr, sc *scope) (value, error) {
 		}
 		return cv.elems[n], nil
 	case *mapVal:
+		if cv.dirty > 0 {
+			return nil, ev.errf(x, "lookup in a map that the enclosing iteration over a map writes to")
+		}
 		if !concrete(i) {
 			return nil, ev.errf(x, "map key %s is not resolvable", describe(i))
 		}
@@ -1469,7 +1536,7 @@ func (ev *evaluator) callFunc(fv *funcVal, args []value, argUnord bool, at ast.N
 		if fv.recv == nil {
 			return nil, ev.errf(at, "method %s called without a receiver", fv.name)
 		}
-		sc.vars[fv.recvName] = &variable{fv.recv}
+		sc.vars[fv.recvName] = &variable{v: fv.recv}
 	}
 	names, types := paramNames(fv.typ.Params)
 	variadic := false
@@ -1503,7 +1570,7 @@ func (ev *evaluator) callFunc(fv *funcVal, args []value, argUnord bool, at ast.N
 	}
 	for i, n := range names {
 		if n != "_" {
-			sc.vars[n] = &variable{args[i]}
+			sc.vars[n] = &variable{v: args[i]}
 		}
 	}
 	// named results
@@ -1516,7 +1583,7 @@ func (ev *evaluator) callFunc(fv *funcVal, args []value, argUnord bool, at ast.N
 			if err != nil {
 				return nil, err
 			}
-			sc.vars[n] = &variable{z}
+			sc.vars[n] = &variable{v: z}
 		}
 	}
 	ret, returned, err := ev.execBlock(fv.body, ev.newScope(sc))
@@ -1612,6 +1679,9 @@ func (ev *evaluator) evalBuiltin(name string, x *ast.CallExpr, sc *scope) (value
 		case *sliceVal:
 			return intVal(len(c.elems)), nil
 		case *mapVal:
+			if c.dirty > 0 {
+				return nil, ev.errf(x, "len of a map that the enclosing iteration over a map writes to")
+			}
 			return intVal(len(c.keys)), nil
 		case nilVal:
 			return intVal(0), nil
@@ -1670,9 +1740,19 @@ func (ev *evaluator) evalBuiltin(name string, x *ast.CallExpr, sc *scope) (value
 		if len(x.Args) < 1 {
 			break
 		}
-		base, err := ev.evalExpr(x.Args[0], sc)
-		if err != nil {
-			return nil, err
+		var base value
+		var err error
+		if id, ok := x.Args[0].(*ast.Ident); ok && ev.selfApp == x {
+			// x = append(x, ...): the one read of x that is allowed while x is dirty (accumulation commutes up to order,
+			// and the order is recorded as an unordered group)
+			if vr, _ := sc.lookup(id.Name); vr != nil {
+				base = vr.v
+			}
+		}
+		if base == nil {
+			if base, err = ev.evalExpr(x.Args[0], sc); err != nil {
+				return nil, err
+			}
 		}
 		ev.clock++
 		out := &sliceVal{birth: ev.clock, spare: true}
@@ -1858,7 +1938,7 @@ func (ev *evaluator) execStmt(st ast.Stmt, sc *scope) (value, bool, error) {
 						return nil, false, err
 					}
 					if n.Name != "_" {
-						sc.vars[n.Name] = &variable{z}
+						sc.vars[n.Name] = &variable{v: z}
 					}
 				}
 				continue
@@ -1879,7 +1959,7 @@ func (ev *evaluator) execStmt(st ast.Stmt, sc *scope) (value, bool, error) {
 					if fv, ok := vals[i].(*funcVal); ok && fv.name == "" {
 						fv.name = n.Name
 					}
-					sc.vars[n.Name] = &variable{vals[i]}
+					sc.vars[n.Name] = &variable{v: vals[i]}
 				}
 			}
 		}
@@ -1891,7 +1971,7 @@ func (ev *evaluator) execStmt(st ast.Stmt, sc *scope) (value, bool, error) {
 		if !ok {
 			return nil, false, ev.errf(s, "%s of something that is not a local variable", s.Tok)
 		}
-		v, crossed, owner := sc.lookup(id.Name)
+		v, owner := sc.lookup(id.Name)
 		if v == nil {
 			return nil, false, ev.errf(s, "%s of %s, which is not a local variable", s.Tok, id.Name)
 		}
@@ -1899,7 +1979,8 @@ func (ev *evaluator) execStmt(st ast.Stmt, sc *scope) (value, bool, error) {
 		if !ok {
 			return nil, false, ev.errf(s, "%s of %s", s.Tok, describe(v.v))
 		}
-		_ = crossed // counting commutes: the final value does not depend on iteration order
+		// counting commutes: the final value does not depend on iteration order (reading it inside the loop would)
+		ev.markVar(v, owner)
 		ev.touched(owner.birth)
 		if s.Tok == token.INC {
 			v.v = n + 1
@@ -2018,17 +2099,11 @@ func (ev *evaluator) execRange(s *ast.RangeStmt, sc *scope) (value, bool, error)
 	}
 	iterate := func(k, v value, grp int) (value, bool, error) {
 		inner := ev.newScope(sc)
-		if grp != 0 {
-			inner.unord = true
-			ev.unord++
-			ev.curGrp = append(ev.curGrp, grp)
-			defer func() { ev.unord--; ev.curGrp = ev.curGrp[:len(ev.curGrp)-1] }()
-		}
 		if kn != "_" {
-			inner.vars[kn] = &variable{k}
+			inner.vars[kn] = &variable{v: k}
 		}
 		if vn != "_" {
-			inner.vars[vn] = &variable{v}
+			inner.vars[vn] = &variable{v: v}
 		}
 		return ev.execBlock(s.Body, ev.newScope(inner))
 	}
@@ -2043,13 +2118,23 @@ func (ev *evaluator) execRange(s *ast.RangeStmt, sc *scope) (value, bool, error)
 			if grp[i] != 0 && kn != "_" {
 				return nil, false, ev.errf(s, "index variable over a slice whose order depends on map iteration")
 			}
+			// a maximal run of elements of one unordered group is one unordered context
+			if grp[i] != 0 && (i == 0 || grp[i-1] != grp[i]) {
+				ev.enterUnord(grp[i])
+			}
 			ret, returned, err := iterate(intVal(i), elems[i], grp[i])
+			if grp[i] != 0 && (err != nil || returned || i == len(elems)-1 || grp[i+1] != grp[i]) {
+				ev.leaveUnord()
+			}
 			if err != nil || returned {
 				return ret, returned, err
 			}
 		}
 		return nil, false, nil
 	case *mapVal:
+		if cv.dirty > 0 {
+			return nil, false, ev.errf(s, "range over a map that the enclosing iteration over a map writes to")
+		}
 		idx := make([]int, len(cv.keys))
 		for i := range idx {
 			idx[i] = i
@@ -2078,6 +2163,8 @@ func (ev *evaluator) execRange(s *ast.RangeStmt, sc *scope) (value, bool, error)
 		keys := append([]value(nil), cv.keys...)
 		vals := append([]value(nil), cv.vals...)
 		n0 := len(cv.keys)
+		ev.enterUnord(g)
+		defer ev.leaveUnord()
 		for _, i := range idx {
 			ret, returned, err := iterate(keys[i], vals[i], g)
 			if err != nil || returned {
@@ -2113,16 +2200,24 @@ func (ev *evaluator) execAssign(s *ast.AssignStmt, sc *scope) error {
 		if !ok {
 			return ev.errf(s, "%s on something that is not a local variable", s.Tok)
 		}
-		v, crossed, owner := sc.lookup(id.Name)
+		v, owner := sc.lookup(id.Name)
 		if v == nil {
 			return ev.errf(s, "%s on %s, which is not a local variable", s.Tok, id.Name)
 		}
-		nv, err := ev.evalBinary(&ast.BinaryExpr{X: id, OpPos: s.TokPos, Op: op, Y: s.Rhs[0]}, sc)
+		rv, err := ev.evalExpr(s.Rhs[0], sc)
 		if err != nil {
 			return err
 		}
-		if _, isStr := nv.(strVal); isStr && crossed {
-			return ev.errf(s, "string built up inside an iteration over a map: the result depends on iteration order")
+		nv, err := ev.binop(s, op, v.v, rv)
+		if err != nil {
+			return err
+		}
+		if ev.crossing(owner.birth) != nil {
+			// sums and products of integers commute; a string built up does not
+			if _, isStr := nv.(strVal); isStr {
+				return ev.errf(s, "string built up inside an iteration over a map: the result depends on iteration order")
+			}
+			ev.markVar(v, owner)
 		}
 		ev.touched(owner.birth)
 		v.v = nv
@@ -2136,6 +2231,9 @@ func (ev *evaluator) execAssign(s *ast.AssignStmt, sc *scope) error {
 				return err
 			}
 			if mv, isMap := c.(*mapVal); isMap {
+				if mv.dirty > 0 {
+					return ev.errf(ix, "lookup in a map that the enclosing iteration over a map writes to")
+				}
 				k, err := ev.evalExpr(ix.Index, sc)
 				if err != nil {
 					return err
@@ -2160,8 +2258,15 @@ func (ev *evaluator) execAssign(s *ast.AssignStmt, sc *scope) error {
 		}
 	}
 	var vals []value
-	for _, r := range s.Rhs {
+	for i, r := range s.Rhs {
+		saveApp := ev.selfApp
+		if len(s.Rhs) == len(s.Lhs) {
+			if id, ok := s.Lhs[i].(*ast.Ident); ok && isSelfAppend(r, id.Name) {
+				ev.selfApp = r.(*ast.CallExpr)
+			}
+		}
 		v, err := ev.evalExpr(r, sc)
+		ev.selfApp = saveApp
 		if err != nil {
 			return err
 		}
@@ -2184,6 +2289,22 @@ func (ev *evaluator) hasKey(mv *mapVal, k value) bool {
 		}
 	}
 	return false
+}
+
+// markVar: v (declared in owner) is written now; if that happens inside an unordered context that began after
+// v was declared, v is dirty until that context ends.
+func (ev *evaluator) markVar(v *variable, owner *scope) {
+	if c := ev.crossing(owner.birth); c != nil {
+		v.dirty++
+		c.vars = append(c.vars, v)
+	}
+}
+
+func (ev *evaluator) markMap(m *mapVal) {
+	if c := ev.crossing(m.birth); c != nil {
+		m.dirty++
+		c.maps = append(c.maps, m)
+	}
 }
 
 // isSelfAppend: rhs is append(<name>, ...)
@@ -2213,11 +2334,12 @@ func (ev *evaluator) assignAll(s *ast.AssignStmt, vals []value, sc *scope) error
 					if fv, ok := v.(*funcVal); ok && fv.name == "" {
 						fv.name = t.Name
 					}
-					sc.vars[t.Name] = &variable{v}
+					sc.vars[t.Name] = &variable{v: v}
 					continue
 				}
 			}
-			vr, crossed, owner := sc.lookup(t.Name)
+			vr, owner := sc.lookup(t.Name)
+			crossed := owner != nil && ev.crossing(owner.birth) != nil
 			if vr == nil {
 				if _, isPkg := ev.pkg.values[t.Name]; isPkg {
 					return ev.errf(s, "assignment to the package-level variable %s", t.Name)
@@ -2229,15 +2351,28 @@ func (ev *evaluator) assignAll(s *ast.AssignStmt, vals []value, sc *scope) error
 				if len(s.Rhs) == len(s.Lhs) {
 					rhs = s.Rhs[i]
 				}
+				if ev.opaqueOrderFree && isOpaque(v) && isOpaque(vr.v) {
+					// the generator reads nothing off opaque values (see the field's comment): which opaque term the
+					// variable holds after the loop is immaterial, and it can never become a concrete datum
+					ev.touched(owner.birth)
+					vr.v = v
+					continue
+				}
 				if rhs == nil || !isSelfAppend(rhs, t.Name) {
 					return ev.errf(s, "assignment to %s inside an iteration over a map (other than %s = append(%s, ...)): the result depends on iteration order",
 						t.Name, t.Name, t.Name)
 				}
 			}
+			if crossed {
+				ev.markVar(vr, owner)
+			}
 			ev.touched(owner.birth)
 			vr.v = v
 		case *ast.IndexExpr:
+			saveLhs := ev.lhsMap
+			ev.lhsMap = true
 			c, err := ev.evalExpr(t.X, sc)
+			ev.lhsMap = saveLhs
 			if err != nil {
 				return err
 			}
@@ -2251,7 +2386,7 @@ func (ev *evaluator) assignAll(s *ast.AssignStmt, vals []value, sc *scope) error
 					return ev.errf(t, "map key %s is not resolvable", describe(k))
 				}
 				if id := rootIdent(t.X); id != nil {
-					if vr, _, _ := sc.lookup(id.Name); vr == nil {
+					if vr, _ := sc.lookup(id.Name); vr == nil {
 						return ev.errf(s, "assignment into %s, which is not a local variable", id.Name)
 					}
 				}
@@ -2272,6 +2407,9 @@ func (ev *evaluator) assignAll(s *ast.AssignStmt, vals []value, sc *scope) error
 				if !done {
 					cv.keys = append(cv.keys, k)
 					cv.vals = append(cv.vals, v)
+				}
+				if ev.unord > 0 {
+					ev.markMap(cv)
 				}
 			case *sliceVal:
 				n, ok := k.(intVal)
@@ -2331,7 +2469,7 @@ func (ev *evaluator) symbolicArgs(ft *ast.FuncType) []value {
 // A variadic last parameter is bound to an opaque slice.
 func (ev *evaluator) runRoot(fv *funcVal) (ret value, trace []*callVal, err error) {
 	ev.trace = nil
-	ev.unord, ev.curGrp, ev.depth = 0, nil, 0
+	ev.unord, ev.curGrp, ev.depth, ev.ctxs = 0, nil, 0, nil
 	args := ev.symbolicArgs(fv.typ)
 	if fv.recvName != "" && fv.recv == nil {
 		fv.recv = &symVal{name: fv.recvName, typ: fv.recvType}
@@ -2342,12 +2480,12 @@ func (ev *evaluator) runRoot(fv *funcVal) (ret value, trace []*callVal, err erro
 			sc := ev.newScope(fv.env)
 			sc.fn = true
 			if fv.recvName != "" && fv.recvName != "_" {
-				sc.vars[fv.recvName] = &variable{fv.recv}
+				sc.vars[fv.recvName] = &variable{v: fv.recv}
 			}
 			names, _ := paramNames(fv.typ.Params)
 			for i, n := range names {
 				if n != "_" {
-					sc.vars[n] = &variable{args[i]}
+					sc.vars[n] = &variable{v: args[i]}
 				}
 			}
 			r, _, err := ev.execBlock(fv.body, ev.newScope(sc))
@@ -2390,14 +2528,14 @@ func (ev *evaluator) enclosingScope(fd *ast.FuncDecl) *scope {
 	bind := func(id *ast.Ident) {
 		if id != nil && id.Name != "_" {
 			if _, ok := sc.vars[id.Name]; !ok {
-				sc.vars[id.Name] = &variable{&symVal{name: id.Name}}
+				sc.vars[id.Name] = &variable{v: &symVal{name: id.Name}}
 			}
 		}
 	}
 	if fd.Recv != nil {
 		for _, f := range fd.Recv.List {
 			for _, n := range f.Names {
-				sc.vars[n.Name] = &variable{&symVal{name: n.Name, typ: typeName(f.Type)}}
+				sc.vars[n.Name] = &variable{v: &symVal{name: n.Name, typ: typeName(f.Type)}}
 			}
 		}
 	}
